@@ -121,6 +121,26 @@ func (r result) coq() string {
 	return "(RList " + lib.CoqStrList(r.list) + ")"
 }
 
+func coqOp(op Op) string {
+	switch op.K {
+	case "puttag":
+		return fmt.Sprintf("PutTag %s %d", lib.CoqStr(op.T), op.D)
+	case "putdig":
+		return fmt.Sprintf("PutDigest %d", op.D)
+	case "putchild":
+		return fmt.Sprintf("PutChild %d", op.D)
+	case "tagdel":
+		return fmt.Sprintf("TagDel %s", lib.CoqStr(op.T))
+	case "mandel":
+		return fmt.Sprintf("ManDel %d", op.D)
+	case "head":
+		return fmt.Sprintf("Head %s", lib.CoqStr(op.T))
+	case "getdig":
+		return fmt.Sprintf("GetDig %d", op.D)
+	}
+	return "List"
+}
+
 func doOp(ctx context.Context, rc *regclient.RegClient, base string, op Op) result {
 	mk := func(i int) manifest.Manifest {
 		m, err := manifest.New(manifest.WithRaw(manBody[i]))
@@ -337,24 +357,7 @@ func runCaseRaw(c Case, dir string, res *lib.Result) string {
 			files = append(files, fmt.Sprint(f))
 		}
 		for _, op := range c.Ops {
-			switch op.K {
-			case "puttag":
-				ops = append(ops, fmt.Sprintf("PutTag %s %d", lib.CoqStr(op.T), op.D))
-			case "putdig":
-				ops = append(ops, fmt.Sprintf("PutDigest %d", op.D))
-			case "putchild":
-				ops = append(ops, fmt.Sprintf("PutChild %d", op.D))
-			case "tagdel":
-				ops = append(ops, fmt.Sprintf("TagDel %s", lib.CoqStr(op.T)))
-			case "mandel":
-				ops = append(ops, fmt.Sprintf("ManDel %d", op.D))
-			case "head":
-				ops = append(ops, fmt.Sprintf("Head %s", lib.CoqStr(op.T)))
-			case "getdig":
-				ops = append(ops, fmt.Sprintf("GetDig %d", op.D))
-			case "list":
-				ops = append(ops, "List")
-			}
+			ops = append(ops, coqOp(op))
 		}
 		return fmt.Sprintf("mkCase %s %s %s %s", lib.CoqList(idx), lib.CoqList(files), lib.CoqList(ops), lib.CoqList(obs))
 	case "reg":
@@ -362,11 +365,14 @@ func runCaseRaw(c Case, dir string, res *lib.Result) string {
 		base := "reg.example/repo"
 		mr.PutBlob("repo", []byte("{}"))
 		sp := &specT{tags: map[string]int{}, mans: map[int]bool{}}
+		var opsR, obsR []string
 		for i, op := range c.Ops {
 			if op.K == "putchild" {
 				op.K = "putdig"
 			}
 			r := doOp(ctx, rc, base, op)
+			opsR = append(opsR, coqOp(op))
+			obsR = append(obsR, r.coq())
 			want := sp.apply(op)
 			if op.K == "list" { // hidden tags are not listed
 				var vis []string
@@ -392,6 +398,11 @@ func runCaseRaw(c Case, dir string, res *lib.Result) string {
 				res.Fail("registry-state-differs op="+op.K, fmt.Sprintf("after op %d %+v the registry holds tags %v, expected %v", i, op, raw, sp.tags), c)
 				break
 			}
+		}
+		if len(c.Hidden) == 0 {
+			// the registry history against the abstract tag map of the Coq development (listings with hidden tags are
+			// compared by the reference map above only)
+			return fmt.Sprintf("mkReg %s %s", lib.CoqList(opsR), lib.CoqList(obsR))
 		}
 	case "conc":
 		var rc *regclient.RegClient
@@ -504,7 +515,7 @@ func genCase(r *lib.Rand) Case {
 
 func Run(o lib.Opts) {
 	res := lib.NewResult("C06", o.Tier, o.Seed)
-	res.Rule = "one splitmix64 stream: histories of 3-25 operations (push by tag / by digest / child, tag delete, manifest delete with (40%) and without the referrer check, head, get by digest, list) over 5 tags x 4 manifests (several tags share a manifest), closed by a listing and a head of every tag; 55% OCI layouts (45% of them start from a foreign index.json: duplicate, untagged and full-image-name entries, missing files) compared result by result with the Coq model and, when well formed, with a reference map; 37% registries with the tag-delete API on/off, page sizes 0-3 and pages with hidden-tag holes compared with the reference map and the raw registry state; 8% concurrent pushes of distinct tags through one client; non-trivial = history containing a delete; distinct by case"
+	res.Rule = "one splitmix64 stream: histories of 3-25 operations (push by tag / by digest / child, tag delete, manifest delete with (40%) and without the referrer check, head, get by digest, list) over 5 tags x 4 manifests (several tags share a manifest), closed by a listing and a head of every tag; 55% OCI layouts (45% of them start from a foreign index.json: duplicate, untagged and full-image-name entries, missing files) compared result by result with the Coq model and, when well formed, with a reference map; 37% registries with the tag-delete API on/off, page sizes 0-3 and pages with hidden-tag holes compared with the reference map, with the abstract tag map of the Coq development (vm_compute) and the raw registry state; 8% concurrent pushes of distinct tags through one client; non-trivial = history containing a delete; distinct by case"
 	dir := o.Out
 	if o.Replay != "" {
 		var f struct{ Case Case }
